@@ -23,6 +23,12 @@ UN_PY = {"UAdd": "+", "USub": "-", "UOther": "~"}
 # module-level float constants (same names in both modules, different values in 'b')
 CONSTS = {"a": {50: Fraction(5, 2), 51: Fraction(-1), 52: Fraction(2)}, "b": {50: Fraction(3, 2), 51: Fraction(4), 52: Fraction(1, 2)}}
 ATTR_CONSTS = {"KA": Fraction(3), "KB": Fraction(1, 4)}  # in the constants module, used as cmod.KA
+# In the Coq model an attribute constant is an entry of the READING module's constant table under a name no
+# local can have (nothing can assign to `cmod.KA`; the generator never binds 60/61); only module 'a' reads them.
+ATTR_IDS = {"KA": 60, "KB": 61}
+MOD_IDS = {"a": 0, "b": 1}
+# values a constant may be rebound to between two translations (small dyadics, never 0: `x / K`)
+REBIND_POOL = [Fraction(1, 2), Fraction(1), Fraction(3, 2), Fraction(2), Fraction(-1, 2), Fraction(3), Fraction(4), Fraction(-2), Fraction(5, 2), Fraction(1, 4)]
 
 
 def vn(k: int) -> str:
@@ -211,8 +217,10 @@ class Gen:
                 out.append(("tuple", xs, es))
                 for t in xs:
                     self._bind(sc, t)
-            elif x < 0.82 and d > 0:
+            elif x < 0.755 and d > 0:
                 out.append(self.if_stmt(sc, d))
+            elif x < 0.82 and d > 0 and sc["vars"]:
+                out += self.guard_seq(sc)
             elif x < 0.85:
                 out.append(("pass",))
             elif x < 0.858:
@@ -234,6 +242,39 @@ class Gen:
                 # the model calls that "no value": such programs are compared one-directionally
                 self.feat.add("no-final-return")
                 self.pure = False
+        return out
+
+    def guard_seq(self, sc: dict) -> list:
+        """A guard-style `if` whose body neither assigns nor returns on every path (pass; a nested return-only `if`
+        without else, possibly with a return-only elif), FOLLOWED by self-referential reassignments of bound names
+        (x = x * 2; s = s + k).  Both branches of the guard fall into the reassignments, so a translator that lets the
+        two paths share a table applies them twice (seeded C06-1)."""
+        r = self.rng
+        self.feat.add("guard-if-then-selfref")
+        kind = r.randrange(5)
+        ret = lambda: ("return", self.expr(sc, 1))  # noqa: E731
+        if kind == 0:
+            guard = ("if", self.cmp(sc, 1), [("pass",)], [])
+        elif kind == 1:
+            guard = ("if", self.cmp(sc, 1), [("if", self.cmp(sc, 1), [ret()], [])], [])
+        elif kind == 2:
+            guard = ("if", self.cmp(sc, 1), [("if", self.cmp(sc, 1), [ret()], [("if", self.cmp(sc, 1), [ret()], [])])], [])
+        elif kind == 3:
+            guard = ("if", self.cmp(sc, 1), [("pass",)], [("pass",)])
+        else:  # the guard sits in the else part: `if c: pass / else: if c2: return e`
+            guard = ("if", self.cmp(sc, 1), [("pass",)], [("if", self.cmp(sc, 1), [ret()], [])])
+        out: list = [guard]
+        if kind in (1, 2, 4):
+            self.feat.add("guard-nested-return-only")
+        for _ in range(r.choice([1, 1, 2])):
+            tgt = r.choice(sc["vars"])
+            other = ("var", r.choice(sc["vars"])) if r.random() < 0.5 else self.lit(pow2=True)
+            op = r.choice(["Mul", "Add", "Sub", "Add"])
+            e = ("bin", op, ("var", tgt), other) if r.random() < 0.8 else ("bin", op, other, ("var", tgt))
+            out.append(("assign", tgt, e))
+            self._bind(sc, tgt)
+            if tgt in sc["params"]:
+                self.feat.add("param-reassigned")
         return out
 
     def _bind(self, sc: dict, t: int) -> None:
@@ -404,7 +445,7 @@ def g_expr(e: tuple) -> str:
     if k == "num":
         return f"(ENum {cq(e[1])})"
     if k == "attr":
-        return f"(ENum {cq(e[1])})"
+        return f"(EVar {ATTR_IDS[e[2]]})"
     if k == "var":
         return f"(EVar {e[1]})"
     if k == "un":
@@ -461,8 +502,20 @@ def g_stmts(ss: list) -> str:
 
 
 def g_fundef(f: dict) -> str:
-    gl = "; ".join(f"({k}, {cq(v)})" for k, v in sorted(CONSTS[f["mod"]].items()))
-    return f"(mkFun [{'; '.join(str(p) for p in f['params'])}] [{gl}] {g_stmts(f['body'])})"
+    """an [mfun] (ConstEnv.v): parameters, module id, body -- the constants come with the case's environment"""
+    return f"(mkMFun [{'; '.join(str(p) for p in f['params'])}] {MOD_IDS[f['mod']]} {g_stmts(f['body'])})"
+
+
+def g_env(consts: dict[str, dict[int, Fraction]], attrs: dict[str, Fraction]) -> str:
+    """a [cenv]: module id -> float table; the attribute constants of the constants module are entries of
+    module a's table (the only module that reads them)"""
+    rows = []
+    for mod in ("a", "b"):
+        tab = dict(consts[mod])
+        if mod == "a":
+            tab.update({ATTR_IDS[k]: v for k, v in attrs.items()})
+        rows.append(f"({MOD_IDS[mod]}, [" + "; ".join(f"({k}, {cq(v)})" for k, v in sorted(tab.items())) + "])")
+    return "[" + "; ".join(rows) + "]"
 
 
 def g_optq(v: Fraction | None) -> str:
